@@ -819,6 +819,34 @@ def m_atomic_fetch(e, st, fr, t, a):
     return old
 
 
+def m_into(e, st, fr, t, a):
+    """<X as Into<Y>>::into(v): std's blanket impl = <Y as From<X>>::from(v); a From impl of the crate is executed from
+    its MIR, the reflexive one is the identity"""
+    m = re.match(r'^<(.*) as Into<(.*)>>::into$', t.func or '', re.S)
+    if not m or not hasattr(e, 'sys'):
+        return NotImplemented
+    x, y = m.group(1).strip(), m.group(2).strip()
+    if x == y:
+        return a[0]
+    for cand in (f"<{y} as From<{x}>>::from", f"<{y} as From<T>>::from"):
+        try:
+            fn = e.sys.resolver.resolve(cand)
+        except Unsupported:
+            fn = None
+        if fn is not None and fn.nargs == 1:
+            e.push_call(st, fn, list(a), ret_dest=t.dest, ret_bb=t.target, unwind_bb=t.unwind)
+            return None
+    # not an impl of this crate: maybe another model knows the From side
+    return NotImplemented
+
+
+def m_poll_next_unpin(e, st, fr, t, a):
+    """StreamExt::poll_next_unpin(&mut s, cx) = Pin::new(&mut s).poll_next(cx)"""
+    import sysmodels as S
+    r = S.m_rx_poll_next(e, st, fr, t, a)
+    return r
+
+
 def m_duration_from(e, st, fr, t, a):
     from engine import duration_literal
     n = e.as_int_expr(a[0]) if isinstance(a[0], VScalar) else None
@@ -944,6 +972,8 @@ def install(eng: Engine):
     add(r'^(core::bool::<impl )?bool>?::then::<', m_bool_then)
     add(r'^(core::bool::<impl )?bool>?::then_some::<', m_bool_then_some)
     add(r'^(std::time::|core::time::)?Duration::from_(secs|millis|micros|nanos)$', m_duration_from)
+    add(r'^<.* as Into<.*>>::into$', m_into)
+    add(r' as (futures::)?StreamExt>::poll_next_unpin$', m_poll_next_unpin)
     add('^' + _ATOMIC + r'::new$', m_atomic_new)
     add('^<' + _ATOMIC_TY + r' as Default>::default$', m_atomic_default)
     add('^' + _ATOMIC + r'::load$', m_atomic_load)
